@@ -146,7 +146,7 @@ CHECKS = {
         "assumptions": ["PARTIAL: the lock-order theorem is proved for arbitrary lock programs; that the library's composed lock programs respect one order (outside G10) is decided by the explored schedules, not proved"],
     },
     "C03": {
-        "extra_props": ["Props/MapFut_E.v", "Props/C03_src.v", "Props/MapFut_E2.v", "Props/Comb_G.v", "Props/C03_retry.v", "Props/C07_more.v", "Props/C03_poll.v"],
+        "extra_props": ["Props/MapFut_E.v", "Props/C03_src.v", "Props/MapFut_E2.v", "Props/Comb_G.v", "Props/C03_retry.v", "Props/C07_more.v", "Props/C03_poll.v", "Props/C03_loops.v"],
         "modules": ["p_c03", "p_c03t", "p_c03h", "p_c03p", "p_c03r", "p_c03e", "p_c03m", "p_c03c", "p_c03z"],
         "rule": "p_c03e: the Retry lockstep family with delegate futures cancelled by SOMEONE ELSE (environment cancel, Model/Retry.v EEnvCancel): a retry future left pending that way is the known finding G1; p_c03m / p_c03c / p_c03z: the lockstep families of C13, C14, C15 (MapFuture / FlatMapFuture, f_or / f_and, f_zip over environment futures) with the lost-output verdicts of their monitors; p_c03t / p_c03h / p_c03p / p_c03r: the lockstep scenario families of C09 / C07 / C08 / C05 (mixed timeouts on one executor, delegate completions against the hand-over thread's check/wait/clear, registrations and notify() against the poll thread's, attempts finishing against the submit thread's) replayed on the component machines, with the lost-future / late verdicts of their monitors; p_c03: seeded scenarios on real stacks (depth 1-4, sync / real thread pool) with a virtual clock: callables that succeed, fail "
                 "(retries with back-off), block until t=2, futures cancelled through the returned future at t=0/1/2, small (3) or "
@@ -154,7 +154,7 @@ CHECKS = {
                 "can happen any more, and finished no later than the virtual time implied by the configured delays (so a lost wake-up that "
                 "is only rescued by a 2 s / 30 s fallback timer is reported); pending futures are classified by the chain of library "
                 "futures below them; non-trivial = a cancel or a retry and a preemption",
-        "assumptions": ["the wake-up protocol is proved generically (EventLoop.v); that each worker loop is an instance is validated by the lockstep machines (Retry) and the virtual-time bound"],
+        "assumptions": ["the wake-up protocol is proved generically (EventLoop.v); that each of the four worker loops with its producer sites is an instance is PROVED for the loop bodies and producer methods regenerated from the source on every run (tools/loop2coq.py -> Gen/LoopSkel.v, Model/LoopIR.v, Props/C03_loops.v: per channel - work container, shutdown flags, weak reference - every interleaved trace is a trace of EventLoop.step); trusted there: the translator's vocabulary (which statements are scans / mutations / set / wait / clear) and its whitelist of irrelevant statements, both printed in the generated file; the lockstep machines and the virtual-time bound validate the same claim on the running code"],
     },
     "C20": {   'assumptions': [   'queue gauges: Model/QGauge.v in lockstep (a gauge update is attributed to the executor instance of the adjacent container operation of the same thread, the gauges being '
                            'labelled by executor name only)',
